@@ -468,11 +468,17 @@ func runC19(t *testing.T, c SvcCase) *kit.Result {
 					m.Apply(ws)
 				}
 			case "nodeinfo":
+				// (the last synced sequence also moves when the flush goroutine rotates
+				// the log: the manager is asked before and after the service)
+				var seqBefore uint64
+				if pmgr != nil {
+					_, _, _, seqBefore, _ = pmgr.GetNodeInfo()
+				}
 				r, err := svc.GetNodeInfo(ctx, wire(&pb.GetNodeInfoRequest{}))
 				if pmgr != nil {
 					// the service must pass on what the replication manager says
 					role, addr, replicas, lastSeq, ro := pmgr.GetNodeInfo()
-					if err != nil || r.NodeRole != pb.GetNodeInfoResponse_PRIMARY || role != replication.ReplicationModePrimary || r.PrimaryAddress != addr || len(r.Replicas) != len(replicas) || r.LastSequence != lastSeq || r.ReadOnly != ro || ro {
+					if err != nil || r.NodeRole != pb.GetNodeInfoResponse_PRIMARY || role != replication.ReplicationModePrimary || r.PrimaryAddress != addr || len(r.Replicas) != len(replicas) || r.LastSequence < seqBefore || r.LastSequence > lastSeq || r.ReadOnly != ro || ro {
 						fail(&kit.Violation{Kind: "service-mismatch", Signature: "nodeinfo-primary", Detail: fmt.Sprintf("op %d GetNodeInfo on a primary without replicas: service says %v (err %v), the replication manager says role=%s addr=%s replicas=%d last_sequence=%d read_only=%v", i, r, err, role, addr, len(replicas), lastSeq, ro)})
 					}
 				} else if err != nil || r.NodeRole != pb.GetNodeInfoResponse_STANDALONE || r.ReadOnly {
